@@ -28,3 +28,18 @@ def _feature(location, type="CDS"):  # pylint: disable=redefined-builtin
 
 
 REAL["FeatureWithLocation"] = _feature
+
+
+def _hmmer_hit(evalue, score):
+    from antismash.common.hmmer import HmmerHit
+    return HmmerHit(location="[0:3](+)", label="label", locus_tag="tag", domain="dom", evalue=evalue, score=score,
+                    identifier="PF00001", description="", protein_start=0, protein_end=1, translation="M")
+
+
+def _hmmer_results(hits, evalue, score):
+    from antismash.common.hmmer import HmmerResults
+    return HmmerResults("record", evalue, score, "db", "tool", list(hits))
+
+
+REAL["HmmerHitScores"] = _hmmer_hit
+REAL["HmmerResults"] = _hmmer_results
